@@ -56,7 +56,7 @@ theorem skipWS_k7 (rest : Bytes) :
   exact skipWS_tok 101 _ (by simp [tokStart])
 
 /-- `readObjectTop` agrees with `readObject` whenever the latter succeeds -/
-theorem readObjectTop_of_readObject (file : Bytes) (p : Nat) (getInt : Obj → Option Int) (v : Obj) (k : Bytes)
+theorem readObjectTop_of_readObject (file : Bytes) (p : Nat) (getInt : Obj → Except Err Int) (v : Obj) (k : Bytes)
     (h : readObject (objFuel (file.drop p)) 0 (file.drop p) = .ok (v, k)) :
     readObjectTop file p getInt false = .ok (.obj v, file.length - k.length) := by
   unfold readObjectTop
@@ -105,7 +105,7 @@ its reference, and stops behind `endobj`. -/
 theorem his_indirect_obj_rt (opt : FmtOpt) (o : Obj) (hg : good o = true) (hd : depthOk o) (hr : isRefObj o = false)
     (num gen : Nat) (hnum : num < Gen.his_xref_maxXRefSize) (hgen : gen ≤ Gen.his_xref_maxGeneration) :
     ∃ body, format opt [o] = some body ∧ nrm (rd o.canon) = nrm o ∧
-      ∀ (pre rest : Bytes) (getInt : Obj → Option Int),
+      ∀ (pre rest : Bytes) (getInt : Obj → Except Err Int),
       readIndirect (pre ++ (objText num gen body ++ rest)) pre.length getInt false
         = .ok { val := .obj (rd o.canon), num := num, gen := gen, endPos := pre.length + (objText num gen body).length } := by
   have hgc := good_canon o hg
@@ -226,7 +226,7 @@ theorem readStreamData_after (file : Bytes) (p : Nat) (declared : Option Nat) (e
     simp only at h2
     omega)
 
-theorem readObjectTop_after (file : Bytes) (pos : Nat) (getInt : Obj → Option Int) (so : Bool)
+theorem readObjectTop_after (file : Bytes) (pos : Nat) (getInt : Obj → Except Err Int) (so : Bool)
     (v : Val) (p : Nat) (h : readObjectTop file pos getInt so = .ok (v, p)) : pos ≤ p := by
   unfold readObjectTop at h
   have hobj : ∀ (v : Val) (p : Nat), (match readObject (objFuel (file.drop pos)) 0 (file.drop pos) with
@@ -254,9 +254,11 @@ theorem readObjectTop_after (file : Bytes) (pos : Nat) (getInt : Obj → Option 
         split at h
         · split at h
           · cases h
-          · rename_i ext hext
-            have := readStreamData_after _ _ _ _ hext
-            cases h; omega
+          · split at h
+            · cases h
+            · rename_i ext hext
+              have := readStreamData_after _ _ _ _ hext
+              cases h; omega
         · cases h; omega
   · split at h
     · cases h
@@ -265,7 +267,7 @@ theorem readObjectTop_after (file : Bytes) (pos : Nat) (getInt : Obj → Option 
 
 /-- **A successful `ReadIndirectObject` at `pos` has seen the keyword `endobj` at or behind
 `pos`.** -/
-theorem ok_implies_endobj_after (file : Bytes) (pos : Nat) (getInt : Obj → Option Int) (scalarOnly : Bool)
+theorem ok_implies_endobj_after (file : Bytes) (pos : Nat) (getInt : Obj → Except Err Int) (scalarOnly : Bool)
     (ind : Indirect) (h : readIndirect file pos getInt scalarOnly = .ok ind) :
     ∃ q, isPrefixOf kwEndobj ((file.drop pos).drop q) = true := by
   have fin : ∀ (v : Val) (r : Bytes) (num gen : Nat), IsSuffix r (file.drop pos) →
@@ -691,7 +693,7 @@ theorem cut_object_broken (file : Bytes) (secs : List HIS.Section) (fo : FileObj
     obtain ⟨q, hq⟩ := ok_implies_endobj_after _ _ _ _ _ hr
     rw [hx q] at hq; cases hq
   | error e =>
-    rcases readIndirect_typed _ _ _ _ e hr with rfl | rfl
+    rcases readIndirect_typed _ _ _ (fun o => safeGetInt_typed file secs 12 [] o) _ e hr with rfl | rfl
     · exact ⟨_, rfl, rfl⟩
     · exact ⟨_, rfl, rfl⟩
 
